@@ -170,6 +170,8 @@ type UnitResult struct {
 	Decls       string
 	Axioms      []T
 	Covers      []*Oblig
+	DeadBlocks  []string
+	DeadAfterCall []string
 }
 
 func (e *Engine) NewUnit(fn *ssa.Function, fs *FuncSpec) *Unit {
@@ -266,7 +268,7 @@ func (e *Engine) VerifyFunc(name string) (*UnitResult, error) {
 				for _, p := range st.private {
 					st.assume(Neq(ref, p.ref))
 				}
-				st.private = append(st.private, privRef{ref, kind})
+				st.private = append(st.private, privRef{ref, kind, ""})
 				// make sure the heap exists so that frames apply to it
 				if strings.HasPrefix(kind, "deref:") {
 					hn, hs := derefHeapName(u.sortOf(pt.Elem()))
@@ -293,6 +295,9 @@ func (e *Engine) VerifyFunc(name string) (*UnitResult, error) {
 		st.assume(u.evalBool(env, c.Expr))
 	}
 	st.entry = st.snapshot()
+	for _, c := range fs.Decreases {
+		u.entryVariant = append(u.entryVariant, u.evalTerm(env, c.Expr))
+	}
 	st.frame = nil
 	st0 := st.clone()
 	nreq := len(st.pc)
@@ -316,6 +321,51 @@ func (e *Engine) VerifyFunc(name string) (*UnitResult, error) {
 		_ = spc
 		break
 	}
+	// vacuity guard: every basic block of the function (and of the literals it defines) that is
+	// not a recover block must have been entered by some path; a block no path reaches is dead
+	// code under the assumed contracts - typically a contradictory assumption on one branch
+	if len(u.unsupported) == 0 {
+		var walk func(f *ssa.Function)
+		walk = func(f *ssa.Function) {
+			for _, b := range f.Blocks {
+				if b == f.Recover || u.reached[b] || (len(b.Preds) == 0 && b.Index != 0) {
+					continue
+				}
+				if f != fn && !u.reached[f.Blocks[0]] {
+					continue // a literal this function never runs itself
+				}
+				pos := ""
+				for _, in := range b.Instrs {
+					if in.Pos().IsValid() {
+						pos = u.eng.prog.Fset.Position(in.Pos()).String()
+						break
+					}
+				}
+				u.deadBlocks = append(u.deadBlocks, fmt.Sprintf("%s:%d (%s)", f.Name(), b.Index, pos))
+			}
+			for _, af := range f.AnonFuncs {
+				walk(af)
+			}
+		}
+		walk(fn)
+		seenT := map[*ssa.BasicBlock]bool{}
+		for _, pb := range u.pruned {
+			if u.reached[pb.target] || seenT[pb.target] || !mentionsCallResult(pb.cond, map[string]bool{}) {
+				continue
+			}
+			seenT[pb.target] = true
+			pos := ""
+			if pb.at != nil && pb.at.Pos().IsValid() {
+				pos = u.eng.prog.Fset.Position(pb.at.Pos()).String()
+			}
+			for _, in := range pb.target.Instrs {
+				if pos == "" && in.Pos().IsValid() {
+					pos = u.eng.prog.Fset.Position(in.Pos()).String()
+				}
+			}
+			u.deadAfterCall = append(u.deadAfterCall, fmt.Sprintf("%s block %d (%s)", pb.target.Parent().Name(), pb.target.Index, pos))
+		}
+	}
 	// vacuity cover: the preconditions are satisfiable (must NOT be unsat)
 	cover := &Oblig{Name: relName(fn) + "#cover.requires", Func: relName(fn), Kind: "cover", Assume: append([]T(nil), st.pcAtEntry(nreq)...), Goal: False, Text: "vacuity guard: the function's preconditions are satisfiable"}
 	u.covers = append(u.covers, cover)
@@ -326,7 +376,7 @@ func (e *Engine) VerifyFunc(name string) (*UnitResult, error) {
 	}
 	sort.Strings(assumed)
 	axioms := u.axiomTerms(st0)
-	return &UnitResult{Inlined: sortedKeys(u.autoInlined), Covers: u.covers, Axioms: axioms, Func: name, Obligs: u.obligs, Unsupported: u.unsupported, Assumed: assumed, Paths: u.npaths, Decls: u.decls.Text()}, nil
+	return &UnitResult{Inlined: sortedKeys(u.autoInlined), Covers: u.covers, Axioms: axioms, Func: name, Obligs: u.obligs, Unsupported: u.unsupported, Assumed: assumed, Paths: u.npaths, Decls: u.decls.Text(), DeadBlocks: u.deadBlocks, DeadAfterCall: u.deadAfterCall}, nil
 }
 
 func (s *State) pcAtEntry(n int) []T {
